@@ -460,3 +460,11 @@ PROPS["C13"]["technique"] = "Kani/CBMC bounded model checking (status bytes) + s
 PROPS["C13"]["explanation"] += " E2: on every path through one iteration of each generated visit_map, a member's value is read only after check_is_already_set for that key."
 PROPS["C13"]["outside"] = ["byte-level CBOR (ciborium) in both directions: integer keys on the wire, ordering, round trips", "unknown-key handling, defaults of absent members",
                            "more than one iteration of the key loop per path (the per-key check is local to an iteration)"]
+
+PROPS["C02"]["engines"] = [_e2.engine]
+PROPS["C02"]["e2"] = ["make_credential"]
+PROPS["C02"]["trusted"] = E2_TRUST
+PROPS["C02"]["functions"] += ["E2: Authenticator::make_credential::{closure#0} (MIR): provenance of the algorithm, key, credential id, rp_id and of the value saved"]
+PROPS["C02"]["technique"] = "Kani/CBMC bounded model checking (algorithm choice, id length) + symbolic path execution of rustc MIR (data flow of make_credential)"
+PROPS["C02"]["explanation"] += " E2: in make_credential the algorithm comes from the request's list through choose_algorithm (error before any key generation / store call), the key pair is generated for it, and the one credential saved holds that private key, the freshly generated id (of non-constant length) and the request's rp.id, which is also what the authenticator data is built for."
+PROPS["C02"]["level_text"] = "PARTIAL claim: the algorithm-choice and credential-id-length kernels (E1) and the data flow of make_credential (E2); the cryptographic and encoding clauses of the registration result are outside the claim."
